@@ -801,10 +801,18 @@ pub fn run_main(args: &Args) -> i32 {
         println!("{line}");
     }
     if !harness_errors.is_empty() {
-        for e in harness_errors.iter().take(5) {
-            eprintln!("HARNESS-ERROR: {e}");
+        if !violation_lines.is_empty() {
+            // a reproduced violation was reported: that is the verdict; differences that did
+            // not show again are mentioned, not turned into a harness error
+            for e in harness_errors.iter().take(5) {
+                println!("NOTE: {e}");
+            }
+        } else {
+            for e in harness_errors.iter().take(5) {
+                eprintln!("HARNESS-ERROR: {e}");
+            }
+            return finish(2);
         }
-        return finish(2);
     }
     if totals_all.compared_groups == 0 {
         eprintln!("HARNESS-ERROR: no group was compared");
